@@ -46,6 +46,7 @@ func zzC03Pipeline(n, nSteps int, full bool) {
 	// stabilise after j rounds or never.
 	runner := &zzRunner{}
 	failing := false
+	unstable := false // some step's requirements do not repeat within the allowed number of calls
 	for i := 0; i < nSteps; i++ {
 		nm := "step" + string(rune('0'+i))
 		st := zzStep{desired: make([]bool, n)}
@@ -76,6 +77,12 @@ func zzC03Pipeline(n, nSteps int, full bool) {
 			// then repeat (j beyond the bound: never stabilises)
 			rounds := int(MaxRequirementsIterations) + 2
 			j := 1 + zz.Choose(nm+".stabilisesAfter", rounds)
+			st.reqByLabel = zz.Bool(nm + ".selectsByLabel")
+			// calls j-1 and j are the first two with equal requirements; the
+			// runner makes at most MaxRequirementsIterations+1 calls
+			if j > int(MaxRequirementsIterations) {
+				unstable = true
+			}
 			for k := 0; k < rounds; k++ {
 				if k < j {
 					st.reqNames = append(st.reqNames, "extra-"+string(rune('a'+k)))
@@ -138,6 +145,7 @@ func zzC03Pipeline(n, nSteps int, full bool) {
 	}
 	zz.Cover("pipeline-ok")
 	zz.Assert("pipeline-with-failing-step-does-not-succeed", !failing && !observeFailed)
+	zz.Assert("pipeline-whose-requirements-never-stabilise-does-not-succeed", !unstable)
 	for _, k := range runner.stepCalls {
 		zz.Assert("function-called-a-bounded-number-of-times", k <= int(MaxRequirementsIterations)+1)
 	}
